@@ -7,12 +7,12 @@ package main
 import (
 	"go/token"
 	"go/types"
-	"strings"
 
 	"golang.org/x/tools/go/ssa"
 )
 
 func runC12F(c *Ctx) {
+	c12InitRules(c)
 	runC12F1Auth(c)
 
 	deny := c12DecisionFn(c)
@@ -97,7 +97,10 @@ func runC12F1Auth(c *Ctx) {
 	if !c.need("C12.F1", auth, "route.Target.Authorized") {
 		return
 	}
-	isScheme := func(v ssa.Value) bool { _, ok := fieldOf(v, "route.Target", "AuthScheme"); return ok }
+	isScheme := func(v ssa.Value) bool {
+		// the scheme name of the target, also as the parameter of a helper that is handed it
+		return c12AliasIs(v, func(x ssa.Value) bool { _, ok := fieldOf(x, "route.Target", "AuthScheme"); return ok })
+	}
 	noScheme := &c12Eng{leaf: func(cond ssa.Value, truth bool) (ssa.Value, bool) {
 		return nil, c12EmptyString(cond, truth, isScheme)
 	}}
@@ -125,24 +128,6 @@ func runC12F1Auth(c *Ctx) {
 }
 
 // ---- the per-address decision function ------------------------------------------------------------------------------
-
-func c12IsRulesField(v ssa.Value) bool {
-	_, ok := fieldOf(v, "route.Target", "accessRules")
-	return ok
-}
-
-// c12TagLookup: v is the ok of `_, ok := t.accessRules[<const tag>]`; returns the tag.
-func c12TagLookup(v ssa.Value) (string, bool) {
-	e, ok := v.(*ssa.Extract)
-	if !ok || e.Index != 1 {
-		return "", false
-	}
-	lk, ok := e.Tuple.(*ssa.Lookup)
-	if !ok || !lk.CommaOk || !c12IsRulesField(lk.X) {
-		return "", false
-	}
-	return constString(lk.Index)
-}
 
 func c12IsContains(i ssa.Instruction) bool {
 	cc := callCommon(i)
@@ -178,15 +163,39 @@ func c12DecisionFn(c *Ctx) *ssa.Function {
 			if c12IsContains(i) {
 				contains = true
 			}
-			if lk, ok := i.(*ssa.Lookup); ok && c12IsRulesField(lk.X) {
-				if _, isK := constString(lk.Index); isK {
-					tags = true
-				}
+			if c12TagSource(i) {
+				tags = true
 			}
 		})
 		return tags && contains
 	}
-	return c.fnByRole("route", "denyByIP", role)
+	if f := c.fnByRole("route", "denyByIP", role); f != nil {
+		return f
+	}
+	// the rule set may have moved to a package of its own (route/acl: `func (rs Rules) Denies(ip net.IP) bool`)
+	var cands []*ssa.Function
+	for _, f := range c.AllFns {
+		if isRepoFn(f) && len(f.Blocks) > 0 && role(f) {
+			cands = append(cands, f)
+		}
+	}
+	if len(cands) == 1 {
+		return cands[0]
+	}
+	for _, f := range cands {
+		reg := map[*ssa.Function]bool{}
+		for _, g := range c12Region(c, f) {
+			reg[g] = true
+		}
+		all := true
+		for _, g := range cands {
+			all = all && reg[g]
+		}
+		if all {
+			return f
+		}
+	}
+	return nil
 }
 
 func runDenyByIP(c *Ctx, deny *ssa.Function) {
@@ -197,10 +206,9 @@ func runDenyByIP(c *Ctx, deny *ssa.Function) {
 			ipParam = p
 		}
 	}
-	tagEng := func(prefix string) *c12Eng {
+	tagEng := func(kind string) *c12Eng {
 		return &c12Eng{leaf: func(cond ssa.Value, truth bool) (ssa.Value, bool) {
-			k, ok := c12TagLookup(cond)
-			return nil, ok && truth && strings.HasPrefix(k, prefix)
+			return nil, c12ListPresent(cond, truth, kind)
 		}}
 	}
 	allowE, denyE := tagEng("allow"), tagEng("deny")
@@ -208,9 +216,7 @@ func runDenyByIP(c *Ctx, deny *ssa.Function) {
 		call, ok := cond.(*ssa.Call)
 		return nil, ok && truth && c12IsContains(call)
 	}}
-	noRulesE := &c12Eng{leaf: func(cond ssa.Value, truth bool) (ssa.Value, bool) {
-		return nil, c12LenZero(cond, truth, c12IsRulesField)
-	}}
+	noRulesE := newC12NoRules()
 	isIP := func(v ssa.Value) bool { return typeStr(v.Type()) == "net.IP" }
 	nilLeaf := func(cond ssa.Value, truth bool) (ssa.Value, bool) {
 		if b, ok := cond.(*ssa.BinOp); ok && (b.Op == token.EQL || b.Op == token.NEQ) && (b.Op == token.EQL) == truth {
@@ -232,9 +238,9 @@ func runDenyByIP(c *Ctx, deny *ssa.Function) {
 	roles := map[string]int{}
 	seenNil := false
 	for _, vr := range c12VirtualReturns(deny, 0) {
-		_, noRules := noRulesE.holds(vr)
+		noRules := noRulesE.holds(vr)
 		nilSubj, ipNil := nilE.holds(vr)
-		if ipNil && ipParam != nil && c12Unspill(nilSubj) != ssa.Value(ipParam) {
+		if ipNil && ipParam != nil && !c12AliasIs(c12Unspill(nilSubj), func(x ssa.Value) bool { return x == ssa.Value(ipParam) }) {
 			ipNil = false
 		}
 		_, inAllow := allowE.holds(vr)
@@ -415,13 +421,7 @@ func runC12Walks(c *Ctx, deny *ssa.Function) {
 	}
 	isDenyCall := func(i ssa.Instruction) bool {
 		_, isCall := i.(*ssa.Call)
-		return isCall && staticCalleeIs(i, deny)
-	}
-	ipIdx := -1
-	for k, p := range deny.Params {
-		if typeStr(p.Type()) == "net.IP" || typeStr(p.Type()) == "net/netip.Addr" {
-			ipIdx = k
-		}
+		return isCall && c12MayCall(i, deny)
 	}
 	for _, e := range []struct {
 		name  string
@@ -449,10 +449,16 @@ func runC12Walks(c *Ctx, deny *ssa.Function) {
 			call := i.(*ssa.Call)
 			c.check("C12.X1", key+"|denyByIP verdict honoured", i.Pos(), c12Honoured(call, entry, region, 0),
 				"a true verdict of the per-address decision must make "+e.name+" return true")
-			if ipIdx < 0 || ipIdx >= len(call.Call.Args) {
+			var ipArg ssa.Value
+			for _, a := range call.Call.Args {
+				if ts := typeStr(a.Type()); ts == "net.IP" || ts == "net/netip.Addr" {
+					ipArg = a
+				}
+			}
+			if ipArg == nil {
 				return
 			}
-			c12Slice(call.Call.Args[ipIdx], nil, func(v ssa.Value) bool {
+			c12Slice(ipArg, nil, func(v ssa.Value) bool {
 				if c12IsXFF(v) {
 					seen["xff"] = true
 				}
@@ -479,7 +485,7 @@ func runC12Walks(c *Ctx, deny *ssa.Function) {
 			recv = entry.Params[0]
 		}
 		allowed := &c12Eng{leaf: func(cond ssa.Value, truth bool) (ssa.Value, bool) {
-			if c12LenZero(cond, truth, c12IsRulesField) {
+			if _, ok := c12NoRulesLeaf(cond, truth); ok {
 				return nil, true
 			}
 			if ex, ok := cond.(*ssa.Extract); ok && !truth && ex.Index == 1 {
@@ -502,6 +508,7 @@ func runC12Walks(c *Ctx, deny *ssa.Function) {
 			}
 			return nil, false
 		}}
+		noRules := newC12NoRules()
 		decides := map[*ssa.Function]bool{}
 		for _, f := range fns {
 			if f != entry && mayExec(f, isDenyCall, 0) {
@@ -524,8 +531,12 @@ func runC12Walks(c *Ctx, deny *ssa.Function) {
 				continue
 			}
 			_, ok := allowed.holds(vr)
+			ok = ok || noRules.holds(vr)
 			if !ok {
-				ok = !c12ReachAvoiding(entry, vr.blks[0], decided, allowed)
+				ok = !c12ReachAvoiding(entry, vr.ret, decided, func(cond ssa.Value, truth bool) bool {
+					_, est := allowed.fromFact(cond, truth, 0)
+					return est || noRules.fromFact(cond, truth)
+				})
 			}
 			c.check("C12.F1", key+"|no way round the decision", vr.pos, ok,
 				e.name+" answers `not denied` on a path on which no address was put to the rules: only `no rules configured` (and the trusted anomalies: RemoteAddr not ip:port / not a *net.TCPAddr) may skip the per-address decision")
@@ -612,8 +623,8 @@ func c12ContainsFuncCalls(fn *ssa.Function) []*ssa.Call {
 }
 
 // c12ReachAvoiding: is the end of block target reachable from fn's entry without executing an instruction for which
-// blocked holds and without taking a branch that establishes the fact of eng?
-func c12ReachAvoiding(fn *ssa.Function, target *ssa.BasicBlock, blocked func(ssa.Instruction) bool, eng *c12Eng) bool {
+// blocked holds and without taking a branch that establishes the fact est?
+func c12ReachAvoiding(fn *ssa.Function, target *ssa.BasicBlock, blocked func(ssa.Instruction) bool, est func(cond ssa.Value, truth bool) bool) bool {
 	seen := map[*ssa.BasicBlock]bool{}
 	var visit func(b *ssa.BasicBlock) bool
 	visit = func(b *ssa.BasicBlock) bool {
@@ -631,7 +642,7 @@ func c12ReachAvoiding(fn *ssa.Function, target *ssa.BasicBlock, blocked func(ssa
 		}
 		for _, s := range b.Succs {
 			if f, ok := c12EdgeFact(b, s); ok {
-				if _, est := eng.fromFact(f.Cond, f.Truth, 0); est {
+				if est(f.Cond, f.Truth) {
 					continue
 				}
 			}
@@ -700,27 +711,75 @@ func c12ExhaustedExit(b, s *ssa.BasicBlock) bool {
 
 // ---- F2 -----------------------------------------------------------------------------------------------------------
 
-// c12RulesStore classifies a store to Target.accessRules: denyAll = the stored map gets an "allow..." key (present
-// key + no block = nobody is admitted); open = nil or a map without such a key.
+// c12RulesStore classifies a store to Target.accessRules (or through a pointer to the rule set, `*rs = ...` in a method
+// of the rule set type; or to the allow member of a rule set given as a struct): denyAll = the stored map gets an
+// "allow..." key / the allow member becomes a fresh empty list (present + no block = nobody is admitted); open = nil
+// or a map without such a key.
 func c12RulesStore(st *ssa.Store) (isRules, denyAll, open bool) {
-	if !c12IsRulesField(st.Addr) {
+	if fa, ok := st.Addr.(*ssa.FieldAddr); ok && !c12IsTargetRulesField(st.Addr) && c12IsRulesBase(fa.X) {
+		if c12TagKind(fieldName(fa.X.Type(), fa.Field)) != "allow" {
+			return false, false, false
+		}
+		switch st.Val.(type) {
+		case *ssa.Slice, *ssa.MakeSlice, *ssa.MakeMap, *ssa.Alloc:
+			return true, true, false // rules.allow = ipBlocks{}
+		}
+		if isNilConst(st.Val) {
+			return true, false, true
+		}
+		if bv, isK := constBool(st.Val); isK {
+			return true, bv, !bv // rules.hasAllow = true
+		}
+		return false, false, false // an append: the parser at work
+	}
+	_, local := st.Addr.(*ssa.Alloc)
+	if !c12IsTargetRulesField(st.Addr) && (local || !c12IsRulesType(st.Addr.Type())) {
 		return false, false, false
 	}
-	if isNilConst(st.Val) {
-		return true, false, true
+	denyAll, open = c12RulesValue(st.Val, 0)
+	return true, denyAll, open
+}
+
+// c12RulesValue classifies a rule-set value: denyAll = a map that gets an "allow..." key, open = nil or a map without
+// such a key; a value built by a repository function is judged by what that function returns; neither = a form this
+// rule cannot judge.
+func c12RulesValue(v ssa.Value, depth int) (denyAll, open bool) {
+	if isNilConst(v) {
+		return false, true
 	}
-	mm, ok := st.Val.(*ssa.MakeMap)
-	if !ok {
-		return true, false, false
-	}
-	for _, r := range *mm.Referrers() {
-		if mu, ok := r.(*ssa.MapUpdate); ok && mu.Map == ssa.Value(mm) {
-			if k, isK := constString(mu.Key); isK && strings.HasPrefix(k, "allow") {
-				return true, true, false
+	switch x := v.(type) {
+	case *ssa.ChangeType:
+		return c12RulesValue(x.X, depth)
+	case *ssa.MakeMap:
+		for _, r := range *x.Referrers() {
+			if mu, ok := r.(*ssa.MapUpdate); ok && mu.Map == ssa.Value(x) {
+				if k, isK := constString(mu.Key); isK && c12TagKind(k) == "allow" {
+					return true, false
+				}
 			}
 		}
+		return false, true
+	case *ssa.Call:
+		sc := x.Call.StaticCallee()
+		if sc == nil || depth > 2 {
+			return false, false
+		}
+		sc = unwrap(sc)
+		if !isRepoFn(sc) || len(sc.Blocks) == 0 || sc.Signature.Results().Len() != 1 {
+			return false, false
+		}
+		n, all := 0, true
+		eachInstr(sc, func(i ssa.Instruction) {
+			if r, ok := i.(*ssa.Return); ok && len(r.Results) == 1 {
+				d, o := c12RulesValue(r.Results[0], depth+1)
+				n++
+				all = all && d
+				open = open || o
+			}
+		})
+		return n > 0 && all && !open, open
 	}
-	return true, false, true
+	return false, false
 }
 
 // c12ClosesRules: i makes the target deny-all: a store of a deny-all rule set, or a call of a Target method that
@@ -731,6 +790,14 @@ func c12ClosesRules(i ssa.Instruction, depth int) (closes, opens bool) {
 		isRules, denyAll, open := c12RulesStore(x)
 		if isRules {
 			return denyAll || !open, open
+		}
+	case *ssa.MapUpdate:
+		// rs[ipAllowTag] = nil in a method of the rule set: the allow list becomes present
+		if k, isK := constString(x.Key); isK && c12TagKind(k) == "allow" && c12IsRulesField(x.Map) {
+			switch x.Value.(type) {
+			case *ssa.Const, *ssa.Slice, *ssa.MakeSlice: // nil or a fresh empty list - not the parser appending a block
+				return true, false
+			}
 		}
 	case *ssa.Call:
 		sc := x.Call.StaticCallee()
@@ -850,4 +917,49 @@ func derivesErrOf(v ssa.Value, call *ssa.Call) bool {
 		return true
 	}
 	return derives(v, func(x ssa.Value) bool { return x == call })
+}
+
+// c12MayCall: instruction i calls fn: statically, through a function value that can denote fn (a callback parameter
+// fed with the method value t.denyByIP, a local closure variable), or through an interface that fn's receiver
+// implements (`type judge interface{ denyByIP(net.IP) bool }`).
+func c12MayCall(i ssa.Instruction, fn *ssa.Function) bool {
+	cc := callCommon(i)
+	if cc == nil || fn == nil {
+		return false
+	}
+	if sc := cc.StaticCallee(); sc != nil {
+		return sc == fn || unwrap(sc) == fn
+	}
+	if cc.IsInvoke() {
+		recv := fn.Signature.Recv()
+		if recv == nil || cc.Method.Name() != fn.Name() {
+			return false
+		}
+		iface, ok := cc.Value.Type().Underlying().(*types.Interface)
+		return ok && types.Implements(recv.Type(), iface)
+	}
+	denotes := func(v ssa.Value) bool {
+		for _, g := range funcsOf(v) {
+			if g == fn {
+				return true
+			}
+		}
+		return false
+	}
+	if denotes(cc.Value) {
+		return true
+	}
+	if p, ok := cc.Value.(*ssa.Parameter); ok && p.Parent() != nil {
+		for k, q := range p.Parent().Params {
+			if q != p {
+				continue
+			}
+			for _, s := range gSites[p.Parent()] {
+				if a := s.Common().Args; k < len(a) && denotes(a[k]) {
+					return true
+				}
+			}
+		}
+	}
+	return false
 }
